@@ -40,6 +40,11 @@ mod proofs {
         )* } }
         table!(chk);
         assert!(!f1.literal_cstr || e >= RustEdition::Edition2021, "C-string literals need edition 2021");
+        assert!(!f2.literal_cstr || e >= RustEdition::Edition2021, "C-string literals need edition 2021");
+        assert!(!fnight.literal_cstr || e >= RustEdition::Edition2021, "C-string literals need edition 2021 on nightly too");
+        // nightly is the limit of the stable releases: for the same edition it enables exactly what a release newer than every table row enables (plus the nightly-only flags)
+        macro_rules! lim { ($($f:ident => $min:expr),*) => { $( if $min != u64::MAX && m2 >= 1000 { assert!(fnight.$f == f2.$f, "nightly enables a stable feature that no stable release enables for this edition (or misses one)"); } )* } }
+        table!(lim);
         kani::cover!(f1.offset_of && !f1.unsafe_extern_blocks, "between 1.77 and 1.82");
         kani::cover!(f2.unsafe_extern_blocks && !f1.const_cstr, "spans whole table");
         kani::cover!(f1.literal_cstr, "cstr literal enabled");
